@@ -12,7 +12,8 @@ import (
 // WebsocketConnection implements a ReadWriteCloser over a websocket connection
 type WebsocketTunnelConnection struct {
 	*websocket.Conn
-	closed bool
+	closed    bool
+	remainder []byte // part of the last message that did not fit into the reader's buffer
 }
 
 func NewWebsocketTunnelConnection(conn *websocket.Conn) *WebsocketTunnelConnection {
@@ -22,6 +23,12 @@ func NewWebsocketTunnelConnection(conn *websocket.Conn) *WebsocketTunnelConnecti
 }
 
 func (wstc *WebsocketTunnelConnection) Read(p []byte) (int, error) {
+	if len(wstc.remainder) > 0 {
+		n := copy(p, wstc.remainder)
+		wstc.remainder = wstc.remainder[n:]
+		return n, nil
+	}
+
 	messageType, message, err := wstc.Conn.ReadMessage()
 	if messageType == websocket.CloseMessage || messageType == -1 {
 		return 0, io.EOF
@@ -31,14 +38,14 @@ func (wstc *WebsocketTunnelConnection) Read(p []byte) (int, error) {
 		return 0, errors.WithStack(err)
 	}
 
-	msgLen := len(message)
-	if len(p) < msgLen {
-		return 0, errors.Errorf("Buffer to small: message size is %v, but buffer size is %v", msgLen, len(p))
+	// A websocket message may be larger than the reader's buffer (e.g. the 4 KiB handshake reader);
+	// this is a byte stream, so hand out what fits and keep the rest for the next call.
+	n := copy(p, message)
+	if n < len(message) {
+		wstc.remainder = message[n:]
 	}
 
-	copy(p, message)
-
-	return msgLen, nil
+	return n, nil
 }
 
 // Write will take a stream of bytes and send it over a websocket connection.
